@@ -1,3 +1,6 @@
+Gen/GenArgs.vo Gen/GenArgs.glob Gen/GenArgs.v.beautified Gen/GenArgs.required_vo: Gen/GenArgs.v Lib/NumOps.vo
+Gen/GenArgs.vio: Gen/GenArgs.v Lib/NumOps.vio
+Gen/GenArgs.vos Gen/GenArgs.vok Gen/GenArgs.required_vos: Gen/GenArgs.v Lib/NumOps.vos
 Gen/GenChunk.vo Gen/GenChunk.glob Gen/GenChunk.v.beautified Gen/GenChunk.required_vo: Gen/GenChunk.v Lib/NumOps.vo
 Gen/GenChunk.vio: Gen/GenChunk.v Lib/NumOps.vio
 Gen/GenChunk.vos Gen/GenChunk.vok Gen/GenChunk.required_vos: Gen/GenChunk.v Lib/NumOps.vos
@@ -49,6 +52,9 @@ Proofs/CoreBound.vos Proofs/CoreBound.vok Proofs/CoreBound.required_vos: Proofs/
 Proofs/CoreCons.vo Proofs/CoreCons.glob Proofs/CoreCons.v.beautified Proofs/CoreCons.required_vo: Proofs/CoreCons.v Lib/NumOps.vo Gen/GenProto.vo Model/Core.vo Spec/ProtoSpec.vo
 Proofs/CoreCons.vio: Proofs/CoreCons.v Lib/NumOps.vio Gen/GenProto.vio Model/Core.vio Spec/ProtoSpec.vio
 Proofs/CoreCons.vos Proofs/CoreCons.vok Proofs/CoreCons.required_vos: Proofs/CoreCons.v Lib/NumOps.vos Gen/GenProto.vos Model/Core.vos Spec/ProtoSpec.vos
+Proofs/CoreIdent.vo Proofs/CoreIdent.glob Proofs/CoreIdent.v.beautified Proofs/CoreIdent.required_vo: Proofs/CoreIdent.v Lib/NumOps.vo Gen/GenProto.vo Gen/GenArgs.vo Gen/GenStruct.vo Model/Core.vo Spec/ProtoSpec.vo Proofs/CoreLemmas.vo Proofs/CoreCons.vo Proofs/CoreOrder.vo Proofs/CoreLife.vo Proofs/CoreInit.vo Model/OrderHist.vo
+Proofs/CoreIdent.vio: Proofs/CoreIdent.v Lib/NumOps.vio Gen/GenProto.vio Gen/GenArgs.vio Gen/GenStruct.vio Model/Core.vio Spec/ProtoSpec.vio Proofs/CoreLemmas.vio Proofs/CoreCons.vio Proofs/CoreOrder.vio Proofs/CoreLife.vio Proofs/CoreInit.vio Model/OrderHist.vio
+Proofs/CoreIdent.vos Proofs/CoreIdent.vok Proofs/CoreIdent.required_vos: Proofs/CoreIdent.v Lib/NumOps.vos Gen/GenProto.vos Gen/GenArgs.vos Gen/GenStruct.vos Model/Core.vos Spec/ProtoSpec.vos Proofs/CoreLemmas.vos Proofs/CoreCons.vos Proofs/CoreOrder.vos Proofs/CoreLife.vos Proofs/CoreInit.vos Model/OrderHist.vos
 Proofs/CoreInit.vo Proofs/CoreInit.glob Proofs/CoreInit.v.beautified Proofs/CoreInit.required_vo: Proofs/CoreInit.v Lib/NumOps.vo Gen/GenProto.vo Model/Core.vo Spec/ProtoSpec.vo Proofs/CoreLemmas.vo Proofs/CoreCons.vo Proofs/CoreOrder.vo Proofs/CoreLife.vo
 Proofs/CoreInit.vio: Proofs/CoreInit.v Lib/NumOps.vio Gen/GenProto.vio Model/Core.vio Spec/ProtoSpec.vio Proofs/CoreLemmas.vio Proofs/CoreCons.vio Proofs/CoreOrder.vio Proofs/CoreLife.vio
 Proofs/CoreInit.vos Proofs/CoreInit.vok Proofs/CoreInit.required_vos: Proofs/CoreInit.v Lib/NumOps.vos Gen/GenProto.vos Model/Core.vos Spec/ProtoSpec.vos Proofs/CoreLemmas.vos Proofs/CoreCons.vos Proofs/CoreOrder.vos Proofs/CoreLife.vos
@@ -106,6 +112,9 @@ Props/C11.vos Props/C11.vok Props/C11.required_vos: Props/C11.v Lib/NumOps.vos G
 Props/C12.vo Props/C12.glob Props/C12.v.beautified Props/C12.required_vo: Props/C12.v Lib/NumOps.vo Gen/GenProto.vo Gen/GenStruct.vo Model/Core.vo Spec/ProtoSpec.vo Proofs/CoreCons.vo Proofs/CoreResult.vo Proofs/CoreLife.vo Model/Death.vo Proofs/DeathProofs.vo
 Props/C12.vio: Props/C12.v Lib/NumOps.vio Gen/GenProto.vio Gen/GenStruct.vio Model/Core.vio Spec/ProtoSpec.vio Proofs/CoreCons.vio Proofs/CoreResult.vio Proofs/CoreLife.vio Model/Death.vio Proofs/DeathProofs.vio
 Props/C12.vos Props/C12.vok Props/C12.required_vos: Props/C12.v Lib/NumOps.vos Gen/GenProto.vos Gen/GenStruct.vos Model/Core.vos Spec/ProtoSpec.vos Proofs/CoreCons.vos Proofs/CoreResult.vos Proofs/CoreLife.vos Model/Death.vos Proofs/DeathProofs.vos
+Props/C13.vo Props/C13.glob Props/C13.v.beautified Props/C13.required_vo: Props/C13.v Lib/NumOps.vo Gen/GenProto.vo Gen/GenArgs.vo Gen/GenStruct.vo Model/Core.vo Spec/ProtoSpec.vo Proofs/CoreIdent.vo Proofs/CoreLife.vo
+Props/C13.vio: Props/C13.v Lib/NumOps.vio Gen/GenProto.vio Gen/GenArgs.vio Gen/GenStruct.vio Model/Core.vio Spec/ProtoSpec.vio Proofs/CoreIdent.vio Proofs/CoreLife.vio
+Props/C13.vos Props/C13.vok Props/C13.required_vos: Props/C13.v Lib/NumOps.vos Gen/GenProto.vos Gen/GenArgs.vos Gen/GenStruct.vos Model/Core.vos Spec/ProtoSpec.vos Proofs/CoreIdent.vos Proofs/CoreLife.vos
 Props/C14.vo Props/C14.glob Props/C14.v.beautified Props/C14.required_vo: Props/C14.v Lib/NumOps.vo Gen/GenChunk.vo Model/Chunk.vo Spec/ChunkSpec.vo Proofs/ChunkPartition.vo Proofs/ChunkSizes.vo
 Props/C14.vio: Props/C14.v Lib/NumOps.vio Gen/GenChunk.vio Model/Chunk.vio Spec/ChunkSpec.vio Proofs/ChunkPartition.vio Proofs/ChunkSizes.vio
 Props/C14.vos Props/C14.vok Props/C14.required_vos: Props/C14.v Lib/NumOps.vos Gen/GenChunk.vos Model/Chunk.vos Spec/ChunkSpec.vos Proofs/ChunkPartition.vos Proofs/ChunkSizes.vos
